@@ -286,10 +286,14 @@ func (c *connection) recv(conn net.Conn, connDone chan bool) {
 				break
 			}
 			if status == PackageFull {
-				c.answered()
 				pkg := make([]byte, pkgLen)
 				copy(pkg, currBuffer[0:pkgLen])
 				currBuffer = currBuffer[pkgLen:]
+				// a packet nobody asked for must not pass for the answer to a request that is
+				// still waiting: GraceClose and the idle check would close the connection under it
+				if d, ok := c.client.protocol.(UnsolicitedDetector); !ok || !d.Unsolicited(pkg) {
+					c.answered()
+				}
 				go c.client.protocol.Recv(pkg)
 				if len(currBuffer) > 0 {
 					continue
